@@ -23,11 +23,6 @@ package mqtt
 //@ }
 //@ end
 
-// every function value stored as a retry handle (type retryFn)
-//@ fntype retryFn
-//@   shape ctx context.Context, cli *BaseClient -> result error
-//@   assigns nothing
-
 //@ func wrapErrorWithRetry
 //@   mode int
 //@   props C19
